@@ -167,7 +167,7 @@ Proof. vm_compute. auto. Qed.
 
 (* GCTracts' gone path deletes without the tract lock: its Delete can fall inside a writer's section *)
 Definition op_write : opd := {| o_kind := KWrite; o_tract := 0; o_a1 := 2; o_a2 := 0; o_a3 := 0; o_data := [9]; o_srcs := []; o_pack := [] |}.
-Definition op_gone : opd := {| o_kind := KGCGone; o_tract := 0; o_a1 := 0; o_a2 := 0; o_a3 := 0; o_data := []; o_srcs := []; o_pack := [] |}.
+Definition op_gone : opd := {| o_kind := KGoneOld; o_tract := 0; o_a1 := 0; o_a2 := 0; o_a3 := 0; o_data := []; o_srcs := []; o_pack := [] |}.
 Lemma gcgone_witness :
   let s' := run_sched repaired (g_one_tract, [new_thread op_write; new_thread op_gone])
                       [(0%nat, 0); (0%nat, 0); (0%nat, 0); (0%nat, 0); (1%nat, 0); (1%nat, 0)] in
